@@ -36,7 +36,9 @@ Inductive node :=
 | Jump (pos addr : Z)
 | Jz (pos : Z) (cond : node) (addr : Z)
 | ExitRepeat (pos : Z)
-| Tell (pos : Z) (operand : node) (body : list node).
+| Tell (pos : Z) (operand : node) (body : list node)
+(* sprite / cast / sound / menu / menuItem given by an expression; name = the operand's name at construction *)
+| ObjRef (k : lclass) (name : string) (pos : Z) (ident : node).
 
 (* class tags for Node.__eq__ (same class) *)
 Inductive ctag := TLeaf (k : lclass) | TUnary | TBinary | TSpAssign | TStrOp | TUStrOp | TAccessor | TKeyAccessor
@@ -51,6 +53,7 @@ Definition tag_of (n : node) : ctag :=
   | ToList _ _ => TToList | ToDict _ _ => TToDict | Stmt _ _ => TStmt | Call _ _ _ _ _ _ => TCall
   | CallMethod _ _ _ _ => TCallMethod | Repeat _ _ _ _ _ _ _ _ _ => TRepeat | IfThen _ _ _ _ => TIfThen
   | Jump _ _ => TJump | Jz _ _ _ => TJz | ExitRepeat _ => TExitRepeat | Tell _ _ _ => TTell
+  | ObjRef k _ _ _ => TLeaf k
   end.
 
 (* Node.name *)
@@ -62,6 +65,7 @@ Definition name_of (n : node) : string :=
   | ToList _ _ => "to_list" | ToDict _ _ => "to_dict" | Stmt _ _ => "statement" | Call s _ _ _ _ _ => s
   | CallMethod s _ _ _ => s | Repeat _ _ _ _ _ _ _ _ _ => "repeat" | IfThen _ _ _ _ => "if-then"
   | Jump _ _ => "jump" | Jz _ _ _ => "jz" | ExitRepeat _ => "exit repeat" | Tell _ _ _ => "tell"
+  | ObjRef _ s _ _ => s
   end.
 
 Definition pos_of (n : node) : Z :=
@@ -72,6 +76,7 @@ Definition pos_of (n : node) : Z :=
   | ToList p _ => p | ToDict p _ => p | Stmt p _ => p | Call _ p _ _ _ _ => p
   | CallMethod _ p _ _ => p | Repeat p _ _ _ _ _ _ _ _ => p | IfThen p _ _ _ => p
   | Jump p _ => p | Jz p _ _ => p | ExitRepeat p => p | Tell p _ _ => p
+  | ObjRef _ _ p _ => p
   end.
 
 (* the name is a Python int, not a str: comparisons with string literals are False *)
